@@ -141,6 +141,10 @@ def WFRf : Rf → Prop
   | .unres => True
   | .getter _ v => WFV v
 
+def WFPropK : PropK → Prop
+  | .data v => WFV v
+  | .acc _ _ v => WFV v
+
 def WFEx : Ex → Prop
   | .leaf r => WFRf r
   | .seq _ e => WFEx e
@@ -149,6 +153,8 @@ def WFEx : Ex → Prop
   | .and a b => WFEx a ∧ WFEx b
   | .or a b => WFEx a ∧ WFEx b
   | .cond c t f => WFEx c ∧ WFEx t ∧ WFEx f
+  | .asg _ lref r => WFRf lref ∧ WFEx r
+  | .asgMem _ b k p r => WFEx b ∧ WFEx k ∧ WFPropK p ∧ WFEx r
 
 theorem defaultValue_wf (o : ObjV) (hint : Hint) (log : List String) (h : WFObj o) :
     RAll WF (defaultValue o hint log) := by
@@ -533,6 +539,9 @@ theorem binary_wf (E : Env) (op : BOp) (lv : Vl) (right : Rf) (log : List String
 
 theorem ResAll_true {α : Type} (r : Res α) : ResAll (fun _ => True) r := by cases r <;> trivial
 
+theorem propGet_wf (p : PropK) (log : List String) (h : WFPropK p) : ResAll WFV (propGet p log) := by
+  cases p <;> exact h
+
 theorem eval_wf (E : Env) (e : Ex) (h : WFEx e) : ∀ log, ResAll WFRf (eval E e log) := by
   induction e with
   | leaf r => intro log; exact h
@@ -596,6 +605,31 @@ theorem eval_wf (E : Env) (e : Ex) (h : WFEx e) : ∀ log, ResAll WFRf (eval E e
     · refine ResAll_bind WFRf WFRf _ _ (ihf h.2.2 _) ?_
       intro r l3 hr
       exact ResAll_bind WFV WFRf _ _ (getValue_wf r l3 hr) (fun v l4 hv => hv)
+  | asg o lref r ih =>
+    intro log
+    simp only [eval]
+    refine ResAll_bind WFV WFRf _ _ (getValue_wf lref log h.1) ?_
+    intro lv l1 hlv
+    refine ResAll_bind WFRf WFRf _ _ (ih h.2 _) ?_
+    intro right l2 hright
+    refine ResAll_bind WFV WFRf _ _ (getValue_wf right l2 hright) ?_
+    intro rv l3 hrv
+    exact ResAll_bind WFV WFRf _ _ (binary_wf E (.num o) lv (.value rv) l3 hlv hrv) (fun v l4 hv => hv)
+  | asgMem o b k p r ihb ihk ihr =>
+    intro log
+    simp only [eval]
+    refine ResAll_bind (fun _ => True) WFRf _ _ (ResAll_true _) (fun _ _ _ => ?_)
+    refine ResAll_bind (fun _ => True) WFRf _ _ (ResAll_true _) (fun _ _ _ => ?_)
+    refine ResAll_bind (fun _ => True) WFRf _ _ (ResAll_true _) (fun _ _ _ => ?_)
+    refine ResAll_bind (fun _ => True) WFRf _ _ (ResAll_true _) (fun _ _ _ => ?_)
+    refine ResAll_bind (fun _ => True) WFRf _ _ (ResAll_true _) (fun _ l5 _ => ?_)
+    refine ResAll_bind WFV WFRf _ _ (propGet_wf p l5 h.2.2.1) ?_
+    intro lv l6 hlv
+    refine ResAll_bind WFRf WFRf _ _ (ihr h.2.2.2 _) ?_
+    intro right l7 hright
+    refine ResAll_bind WFV WFRf _ _ (getValue_wf right l7 hright) ?_
+    intro rv l8 hrv
+    exact ResAll_bind WFV WFRf _ _ (binary_wf E (.num o) lv (.value rv) l8 hlv hrv) (fun v l9 hv => hv)
 
 /-! ## Expressions: otto's evaluator = the ES5 evaluation -/
 
@@ -671,6 +705,21 @@ theorem spec_cond (E : Env) (c t f : Ex) (log : List String) :
   simp only [Spec.eval, gv, bind_assoc]
   rfl
 
+theorem isNullishV_cases (bv : Vl) : isNullishV bv = true ↔ (bv = .prim .undef ∨ bv = .prim .null) := by
+  cases bv with
+  | prim p => cases p <;> simp [isNullishV]
+  | obj b => simp [isNullishV]
+
+/-- a member reference `b[k]`: TypeError for an undefined/null base BEFORE the key is converted, else
+    ToString of the key (hint String on objects, logged) -/
+theorem memberRef_eq (E : Env) (bv kv : Vl) (log : List String) : memberRef E bv kv log = Spec.memberRef E bv kv log := by
+  cases bv with
+  | prim p => cases p <;> simp [memberRef, Spec.memberRef, isNullishV, stringV_eq]
+  | obj b => simp [memberRef, Spec.memberRef, isNullishV, stringV_eq]
+
+theorem propGet_eq (p : PropK) (log : List String) : propGet p log = Spec.propGet p log := by cases p <;> rfl
+theorem propPut_eq (p : PropK) (log : List String) : propPut p log = Spec.propPut p log := by cases p <;> rfl
+
 /-- THE EXPRESSION THEOREM.  For every expression tree (unary, arithmetic, bitwise, shift, relational,
     equality, instanceof, in, && || ?:, comma; operands of any shape: scripted objects, getters, undeclared
     identifiers) and every starting log, otto's evaluation IS the ES5 evaluation: the same Reference or value
@@ -715,6 +764,52 @@ theorem eval_eq (E : Env) (e : Ex) (hwf : WFEx e) : ∀ log, eval E e log = Spec
     apply bind_congr
     intro tv l2
     rw [boolV_eq, iht hwf.2.1 l2, ihf hwf.2.2 l2]
+  | asg o lref r ih =>
+    intro log
+    simp only [eval, Spec.eval]
+    apply bind_congr_on
+    intro lv l1 elv
+    have hlv : WFV lv := ResAll_ok WFV _ (getValue_wf lref log hwf.1) lv l1 elv
+    rw [← ih hwf.2 l1]
+    apply bind_congr_on
+    intro right l2 er
+    have hright : WFRf right := ResAll_ok WFRf _ (eval_wf E r hwf.2 l1) right l2 er
+    apply bind_congr_on
+    intro rv l3 erv
+    have hrv : WFV rv := ResAll_ok WFV _ (getValue_wf right l2 hright) rv l3 erv
+    have := binaryV_eq E (.num o) lv rv l3 hlv hrv
+    simp only [binaryV] at this
+    rw [this]
+  | asgMem o b k p r ihb ihk ihr =>
+    intro log
+    simp only [eval, Spec.eval]
+    rw [← ihb hwf.1 log]
+    apply bind_congr; intro t l1
+    apply bind_congr; intro bv l2
+    rw [← ihk hwf.2.1 l2]
+    apply bind_congr; intro m l3
+    apply bind_congr; intro kv l4
+    rw [memberRef_eq]
+    apply bind_congr; intro _ l5
+    rw [propGet_eq]
+    apply bind_congr_on
+    intro lv l6 elv
+    have hlv : WFV lv := by
+      have := propGet_wf p l5 hwf.2.2.1
+      rw [propGet_eq] at this
+      exact ResAll_ok WFV _ this lv l6 elv
+    rw [← ihr hwf.2.2.2 l6]
+    apply bind_congr_on
+    intro right l7 er
+    have hright : WFRf right := ResAll_ok WFRf _ (eval_wf E r hwf.2.2.2 l6) right l7 er
+    apply bind_congr_on
+    intro rv l8 erv
+    have hrv : WFV rv := ResAll_ok WFV _ (getValue_wf right l7 hright) rv l8 erv
+    have := binaryV_eq E (.num o) lv rv l8 hlv hrv
+    simp only [binaryV] at this
+    rw [this]
+    apply bind_congr; intro res l9
+    rw [propPut_eq]
 
 /-- the expression in a value context: result (or error) and complete effect log -/
 theorem run_eq (E : Env) (e : Ex) (hwf : WFEx e) : run E e = Spec.run E e := by
@@ -779,6 +874,19 @@ example : (match run E0 (.bin (.num .add) (.leaf (.value (plainObj 1 [100] (.pri
         (.leaf (.getter "G" (.prim (.bool true))))) with
     | .ok _ ["G", "1v"] => true
     | _ => false) = true := by decide
+
+/-- compound assignment (§11.13.2): the old value is read (getter G) BEFORE the right side is evaluated (R);
+    `b[k] -= r`: b, k, ToString(k), [[Get]], r, the conversions of `-`, [[Put]] -/
+example : (match run E0 (.asgMem .sub (.seq "B" (.leaf (.value (plainObj 1 [100] .obj .obj))))
+        (.seq "K" (.leaf (.value (plainObj 7 [100] .obj (.prim (.str [112])))))) (.acc "G" "S" (.prim (.int .i8 1)))
+        (.seq "R" (.leaf (.value (plainObj 8 [100] (.prim (.bool true)) .obj))))) with
+    | .ok _ ["B", "K", "7s", "G", "R", "8v", "S"] => true
+    | _ => false) = true := by decide
+/-- `undeclared += (log("R"), 1)`: ReferenceError from GetValue(lref), R is never logged -/
+example : run E0 (.asg .add .unres (.seq "R" (.leaf (.value (.prim (.bool true)))))) = .refError [] := by decide
+/-- `null[k] += …`: TypeError before the key's toString runs -/
+example : run E0 (.asgMem .add (.leaf (.value (.prim .null))) (.leaf (.value (plainObj 7 [100] .obj (.prim (.str [112])))))
+    (.data (.prim .undef)) (.leaf (.value (.prim .undef)))) = .typeError [] := by decide
 
 /-- the hypothesis of `run_eq` holds for a nested tree with an object, a getter and an undeclared identifier:
     `!( (log("T"), o) && (g.p - undeclared) )` -/
